@@ -1061,6 +1061,18 @@ func c06Notifications(c *Ctx) {
 		if pan != nil || cpu.SP != 0x8002 {
 			c.Report("c06/notify:nil-handler", 0, "", map[string]string{"bytes": hexBytes(code)}, []string{fmt.Sprintf("RETN/RETI with nil handler: panic=%v SP=%04X", pan, cpu.SP)})
 		}
+		// what RETN does to the flip-flops does not depend on anybody listening
+		for iff := 0; iff < 4 && code[1] == 0x45; iff++ {
+			c2 := z80.CPU{Memory: make(z80.DumbMemory, 65536)}
+			c2.PC, c2.SP = 0x100, 0x8000
+			c2.IFF1, c2.IFF2 = iff&1 != 0, iff&2 != 0
+			copy(c2.Memory.(z80.DumbMemory)[0x100:], code)
+			p2 := c02Step(&c2)
+			n++
+			if p2 != nil || c2.IFF1 != (iff&2 != 0) || c2.IFF2 != (iff&2 != 0) {
+				c.Report("c06/notify:nil-handler", int64(iff+1), "", map[string]interface{}{"bytes": hexBytes(code), "iff1": iff&1 != 0, "iff2": iff&2 != 0}, []string{fmt.Sprintf("RETN without a registered handler, IFF1=%v IFF2=%v before: IFF1=%v IFF2=%v after (RETN copies IFF2 into IFF1), panic %v", iff&1 != 0, iff&2 != 0, c2.IFF1, c2.IFF2, p2)})
+			}
+		}
 	}
 	c.Evaluations += n
 	c.Traces += n
